@@ -9,6 +9,7 @@ import (
 	"errors"
 	"fmt"
 	"math"
+	"reflect"
 	"regexp"
 	"sort"
 	"strconv"
@@ -190,11 +191,11 @@ func isScalar(v any) bool {
 }
 
 func isContainer(v any) bool {
-	switch v.(type) {
-	case []int, []string, []float64, []bool, map[string]any:
-		return true
+	if v == nil {
+		return false
 	}
-	return false
+	k := reflect.ValueOf(v).Kind()
+	return k == reflect.Slice || k == reflect.Map
 }
 
 func titleWords(s string) string {
@@ -239,19 +240,11 @@ func init() {
 	reg(&fnSpec{name: "len", params: []string{"any"}, builtin: true, shared: true,
 		accepts: func(v any) bool { return isStr(v) || isContainer(v) },
 		call: func(in []any) (any, error) {
-			switch x := in[0].(type) {
-			case string:
+			if x, ok := in[0].(string); ok {
 				return len(x), nil
-			case []int:
-				return len(x), nil
-			case []string:
-				return len(x), nil
-			case []float64:
-				return len(x), nil
-			case []bool:
-				return len(x), nil
-			case map[string]any:
-				return len(x), nil
+			}
+			if isContainer(in[0]) {
+				return reflect.ValueOf(in[0]).Len(), nil
 			}
 			return nil, fmt.Errorf("model: len of %T", in[0])
 		}})
